@@ -159,6 +159,27 @@ pub fn hostile_names(rng: &mut Rng, count: usize) -> Vec<String> {
 }
 
 
+/// Names that form a numbered family: a stem followed by a running number, written
+/// canonically or not (zero-padded, with a plus sign, starting at 1, in reverse order).
+pub fn family_names(rng: &mut Rng, count: usize) -> Vec<String> {
+    let stem = *rng.pick(&["n", "x", "", "v_", "crv", "fx_eurusd", "a1b", "0"]);
+    let style = rng.below(6);
+    let mut out: Vec<String> = (0..count)
+        .map(|i| match style {
+            0 => format!("{}{}", stem, i),
+            1 => format!("{}{:02}", stem, i),
+            2 => format!("{}{:03}", stem, i),
+            3 => format!("{}+{}", stem, i),
+            4 => format!("{}{}", stem, i + 1),
+            _ => format!("{}{}", stem, if i == 1 { "01".to_string() } else { i.to_string() }),
+        })
+        .collect();
+    if rng.chance(0.2) {
+        out.reverse();
+    }
+    out
+}
+
 pub fn odd_names(rng: &mut Rng, count: usize) -> Vec<String> {
     let mut idx: Vec<usize> = (0..ODD_NAMES.len()).collect();
     rng.shuffle(&mut idx);
